@@ -199,8 +199,10 @@ func c17mmHistory(t *testing.T, out *vharness.Out, rng *rand.Rand) {
 			err2 := mms[1-b].Unmarshal(payload, &got)
 			q, err3 := rps[1-b].PointForRawRotation(wire.RawRotation)
 			y := c17mmObs(q, err3, pairs, nowSec(), interval)
+			// the model covers the rotation lookup; Unmarshal may also fail later, on the box (a peer that
+			// registered the same address with another group since): then the lookup itself succeeded
 			x := y
-			if err2 != nil {
+			if err2 != nil && strings.Contains(err2.Error(), "unable to get topic for rendezvous") {
 				x = "None"
 			}
 			obs = append(obs, x)
